@@ -9,6 +9,7 @@ from stix2.exceptions import InvalidSelectorError, InvalidValueError, MarkingNot
 from stix2.markings import utils as mu
 
 from engine.hlib import Native, V, pick
+from props import h_C01, h_C03  # noqa: F401  (imported before this module registers its own custom type: their class tables are the built-in ones)
 
 M1 = "marking-definition--613f2e26-407d-48c7-9eca-b8e91df99dc9"
 
@@ -328,4 +329,46 @@ def run_all_class_case(ci):
             got = False
         if got != (sel in paths):
             return False
+    return True
+
+
+# ---- every class checks the selectors of granular markings it is constructed / parsed with (a class-specific constraint method must not drop the inherited check)
+def sel_construction(ci: int) -> bool:
+    """
+    pre: 0 <= ci < NALL
+    post: _
+    """
+    ci = pick(ci, NALL)
+    with Native():
+        ok = run_construction_case(ci)
+    V.reached()
+    return ok
+
+
+def run_construction_case(ci):
+    tables = all_tables()
+    if ci >= len(tables):
+        return True
+    o, paths, table = tables[ci]
+    if "granular_markings" not in o._properties:
+        return True
+    ver = "2.0" if isinstance(o, stix2.v20._STIXBase20) else "2.1"
+    doc = json.loads(o.serialize())
+    doc.pop("granular_markings", None)
+    valid = [p for p in sorted(paths) if not p.startswith("granular_markings")]
+    near = [s for s in table if s not in paths and not s.startswith("granular_markings")]
+    picks = valid[:1] + valid[-1:] + near[:2] + near[len(near) // 2:len(near) // 2 + 1] + near[-1:]
+    for sel in picks:
+        d = dict(doc, granular_markings=[{"marking_ref": "marking-definition--613f2e26-407d-48c7-9eca-b8e91df99dc9", "selectors": [sel]}])
+        for how in (0, 1):
+            try:
+                if how == 0:
+                    stix2.parse(d, version=ver) if "created" in d or d["type"] in ("bundle", "marking-definition") else stix2.parse_observable(d, version=ver)
+                else:
+                    type(o)(**{k: v for k, v in d.items()})
+                got = True
+            except (STIXError, ValueError):
+                got = False
+            if got != (sel in paths):
+                return False
     return True
